@@ -27,6 +27,14 @@ SFsAll == { <<1, 100>>, <<1, 10>>, <<3, 10>>, <<1, 1>> }
 Freq5 == <<2, 10, 50, 250, 1250>>
 ShapesC == ShapeSet({2, 3, 4}, {2, 3, 6})
 RangesC == { <<NoEnd, NoEnd>> }
+SidesBoth == {1, -1}
+\* a grid (1/1000 Hz) that is fine around f0 = 3 Hz: 0.94, 0.951, 1, 1.051, 1.06 f0 - the neighbours of the peak lie just
+\* inside the 5 % band of criterion iv, the next ones just outside
+Freq9 == <<700, 1500, 2820, 2853, 3000, 3153, 3180, 6000, 13000>>
+Bump(h) == [j \in 1..NFq |-> IF j = 5 THEN h ELSE IF j \in {4, 6} THEN h - 1 ELSE IF j \in {3, 7} THEN h - 2 ELSE 1]
+ShapesF == { [a |-> Bump(h), peak |-> 5] : h \in {4, 6, 9} }
+SigF == { Q(12, 10), Q(16, 10), Q(2, 1), Q(3, 1) }
+SigElseF == { Q(11, 10), Q(12, 10), Q(21, 10), Q(4, 1) }
 RangesS == { <<NoEnd, NoEnd>>, <<4, 24>> }
 \* two-peak curves: a peak of height h at p and a higher one (h + 2) at q; with the full range the answer is q, with a
 \* HALF-OPEN range that cuts q off it is p (the record's `peak` says which; IsInstance keeps the matching combinations)
